@@ -178,14 +178,23 @@ func handleOpen(h *Handler, iq openIQ, e xmlstream.Encoder) error {
 	conn := newConn(h, l.s, iq, true, MaxBufferSize)
 	h.addStream(iq.Open.SID, conn)
 
+	// Only hold the lock for the lookup: the hand-off below may have to wait for
+	// the application.
 	l.eLock.Lock()
-	defer l.eLock.Unlock()
 	key := iq.From.String() + ":" + iq.Open.SID
 	expect, ok := l.expected[key]
 	if ok {
 		delete(l.expected, key)
-		expect.c <- conn
-		return nil
+	}
+	l.eLock.Unlock()
+	if ok {
+		select {
+		case expect.c <- conn:
+			return nil
+		case <-expect.done:
+			// The Expect call gave up (its context ended) just before the request
+			// arrived: treat the stream like any other.
+		}
 	}
 	select {
 	case l.c <- conn:
